@@ -195,14 +195,239 @@ def make_beam(case):
 
 
 def observe_si(case):
+    return observe_si_beam(make_beam(case), DT[case["dtype"]])
+
+
+def observe_si_beam(b, t):
+    """every SI conversion / definition observable of C18 on the given (non-vectorised) beam OBJECT"""
     import cheetah
-    t = DT[case["dtype"]]
-    b = make_beam(case)
     xyz = b.to_xyz_pxpypz()
     b2 = cheetah.ParticleBeam.from_xyz_pxpypz(xyz, b.energy, dtype=t)
     return {"xyz": xyz.tolist(), "back": b2.particles.tolist(), "back_energy": f(b2.energy), "energies": b.energies.tolist(),
             "momenta": b.momenta.tolist(), "p0c": f(b.p0c), "gamma0": f(b.relativistic_gamma), "beta0": f(b.relativistic_beta),
             "dtypes": [str(xyz.dtype), str(b2.particles.dtype), str(b.energies.dtype)]}
+
+
+# ------------------------------------------------------------------------------------------------ stateful sequences on ONE beam object
+# A beam is an object with assignable state (energy, particles, charges, the coordinate setters x..p, .to(dtype)); every conversion and
+# definition of C18 is a function of its CURRENT state.  A stateful case = initial beam + a sequence of steps (use = read the derived
+# properties / convert; set_* / imul_energy / to / clone / index = change the state or replace the object by a derived one); at the
+# end every SI observable is taken on the object that went through the history and judged (a) by the documented definitions for the
+# FINAL values, (b) against a freshly constructed beam holding the final values, (c) by the Coq model (interval goals).  The final
+# values are computed by a mirror that uses plain torch tensors only (no cheetah code).
+USES = ["relativistic_beta", "relativistic_gamma", "p0c", "energies", "momenta", "to_xyz", "roundtrip", "bmad"]
+COORDS = ["x", "px", "y", "py", "tau", "p"]
+
+
+def _round_to(v, dtype):
+    return torch.tensor(v, dtype=DT[dtype]).tolist()
+
+
+def gen_particles(rng, n):
+    return [[rng.uniform(-2e-3, 2e-3), rng.choice([0.0, rng.uniform(-2e-3, 2e-3)]), rng.uniform(-2e-3, 2e-3), rng.uniform(-2e-3, 2e-3),
+             gen_tau(rng), gen_delta(rng), 1.0] for _ in range(n)]
+
+
+def mirror(case, upto=None):
+    """(dtype, E, P, charges) after the first `upto` steps (all by default), by plain tensor arithmetic; E is a float or, for a
+    vectorised beam, a list; P the matching nested list"""
+    dtype, E, P = case["dtype"], case["E0"], case["particles"]
+    for st in case["steps"][:upto]:
+        op = st["op"]
+        if op == "set_energy":
+            E = _round_to(st["value"], dtype)
+        elif op == "imul_energy":
+            E = (torch.tensor(E, dtype=DT[dtype]) * st["value"]).tolist()
+        elif op == "set_particles":
+            P = _round_to(st["value"], dtype)
+        elif op == "set_coord":
+            t = torch.tensor(P, dtype=DT[dtype])
+            t[..., COORDS.index(st["name"])] = torch.tensor(st["value"], dtype=DT[dtype])
+            P = t.tolist()
+        elif op == "to":
+            dtype = st["dtype"]
+            E, P = _round_to(E, dtype), _round_to(P, dtype)
+        elif op == "index":
+            E, P = E[st["k"]], P[st["k"]]
+    return dtype, E, P
+
+
+def physical(E, P, m):
+    if isinstance(E, list):
+        return all(physical(e, p, m) for e, p in zip(E, P))
+    if not E > 1.15 * m:
+        return False
+    p0 = math.sqrt(E * E - m * m)
+    return all(E + q[5] * p0 > 1.15 * m for q in P)
+
+
+def gen_stateful_case(rng, dtype):
+    m = consts()[0]
+    while True:
+        B = rng.choice([None, None, 2, 3])
+        n = rng.randint(1, 3)
+        if B is None:
+            E0, P0 = gen_energy(rng), gen_particles(rng, n)
+        else:
+            E0, P0 = [gen_energy(rng) for _ in range(B)], [gen_particles(rng, n) for _ in range(B)]
+        case = {"kind": "stateful", "dtype": dtype, "E0": _round_to(E0, dtype), "particles": _round_to(P0, dtype), "steps": []}
+        vec = B
+        steps = case["steps"]
+        steps.append({"op": "use", "what": rng.sample(USES, rng.randint(1, len(USES)))})
+        changed = False
+        for _ in range(rng.randint(1, 6)):
+            k = rng.random()
+            cur_dtype = mirror(case)[0]
+            if k < 0.25:
+                steps.append({"op": "use", "what": rng.sample(USES, rng.randint(1, 4))})
+                continue
+            if k < 0.5:
+                steps.append({"op": "set_energy", "value": gen_energy(rng) if vec is None else [gen_energy(rng) for _ in range(vec)]})
+            elif k < 0.57:
+                steps.append({"op": "imul_energy", "value": rng.choice([0.5, 1.5, 2.0, 3.0, 10.0])})
+            elif k < 0.67:
+                steps.append({"op": "set_particles", "value": gen_particles(rng, n) if vec is None else [gen_particles(rng, n) for _ in range(vec)]})
+            elif k < 0.77:
+                c = rng.choice(COORDS)
+                g = {"tau": gen_tau, "p": gen_delta}.get(c, lambda r: r.uniform(-2e-3, 2e-3))
+                steps.append({"op": "set_coord", "name": c, "value": [g(rng) for _ in range(n)] if vec is None else [[g(rng) for _ in range(n)] for _ in range(vec)]})
+            elif k < 0.87:
+                steps.append({"op": "to", "dtype": "float64" if cur_dtype == "float32" else rng.choice(["float32", "float64"])})
+            elif k < 0.93:
+                steps.append({"op": "clone"})
+            elif vec is not None:
+                steps.append({"op": "index", "k": rng.randrange(vec)})
+                vec = None
+            else:
+                steps.append({"op": "set_charges", "value": [rng.choice([0.0, 1e-12, 2e-12]) for _ in range(n)]})
+            changed = True
+        if not changed:
+            continue
+        # the values held at every `use` and at the end must be physical (the conversions are unspecified otherwise)
+        ok = True
+        for i, st in enumerate(steps + [{"op": "use"}]):
+            if st["op"] == "use":
+                _, E, P = mirror(case, i)
+                ok = ok and physical(E, P, m)
+        if ok:
+            return case
+
+
+def run_stateful(case):
+    """executes the steps on one real beam object; returns (beam, final dtype name)"""
+    import cheetah
+    from cheetah.utils import bmadx
+    m = consts()[0]
+    dtype = case["dtype"]
+    t = DT[dtype]
+    b = cheetah.ParticleBeam(torch.tensor(case["particles"], dtype=t), torch.tensor(case["E0"], dtype=t), dtype=t)
+    for st in case["steps"]:
+        op = st["op"]
+        t = DT[dtype]
+        if op == "use":
+            for w in st["what"]:
+                if w == "to_xyz":
+                    b.to_xyz_pxpypz()
+                elif w == "roundtrip":
+                    cheetah.ParticleBeam.from_xyz_pxpypz(b.to_xyz_pxpypz(), b.energy, dtype=t)
+                elif w == "bmad":
+                    bmadx.bmad_to_cheetah_coords(*bmadx.cheetah_to_bmad_coords(b.particles, b.energy, m), m)
+                else:
+                    getattr(b, w)
+        elif op == "set_energy":
+            b.energy = torch.tensor(st["value"], dtype=t)
+        elif op == "imul_energy":
+            b.energy *= st["value"]
+        elif op == "set_particles":
+            b.particles = torch.tensor(st["value"], dtype=t)
+        elif op == "set_coord":
+            setattr(b, st["name"], torch.tensor(st["value"], dtype=t))
+        elif op == "set_charges":
+            b.particle_charges = torch.tensor(st["value"], dtype=t)
+        elif op == "to":
+            dtype = st["dtype"]
+            r = b.to(DT[dtype])
+            b = r if r is not None else b
+        elif op == "clone":
+            b = b.clone()
+        elif op == "index":
+            b = b[st["k"]]
+    return b, dtype
+
+
+def observe_stateful(case):
+    """per-sample observations on the beam object after the history + the same on freshly built beams holding the final values"""
+    import cheetah
+    b, dtype = run_stateful(case)
+    mdtype, E, P = mirror(case)
+    t = DT[mdtype]
+    vec = isinstance(E, list)
+    out = {"final": {"dtype": mdtype, "E0": E, "particles": P}, "beam_dtype": [str(b.particles.dtype), str(b.energy.dtype)],
+           "state_matches": bool(b.particles.dtype == t and b.energy.dtype == t and torch.equal(b.particles, torch.tensor(P, dtype=t))
+                                 and torch.equal(b.energy, torch.tensor(E, dtype=t))),
+           "state": {"energy": b.energy.tolist(), "particles": b.particles.tolist()}, "samples": []}
+    if not vec:
+        fc = {"kind": "si", "dtype": mdtype, "E0": E, "particles": P}
+        out["samples"].append({"case": fc, "obs": observe_si_beam(b, t), "fresh": observe_si(fc), "coords": observe_coords(dict(fc, kind="coords"))})
+        return out
+    # a vectorised beam object: observe once on the object, slice per setting
+    xyz = b.to_xyz_pxpypz()
+    b2 = cheetah.ParticleBeam.from_xyz_pxpypz(xyz, b.energy, dtype=t)
+    en, mo, p0c, g0, b0 = b.energies, b.momenta, b.p0c, b.relativistic_gamma, b.relativistic_beta
+    for k in range(len(E)):
+        fc = {"kind": "si", "dtype": mdtype, "E0": E[k], "particles": P[k]}
+        obs = {"xyz": xyz[k].tolist(), "back": b2.particles[k].tolist(), "back_energy": f(b2.energy[k]), "energies": en[k].tolist(),
+               "momenta": mo[k].tolist(), "p0c": f(p0c[k]), "gamma0": f(g0[k]), "beta0": f(b0[k]),
+               "dtypes": [str(xyz.dtype), str(b2.particles.dtype), str(en.dtype)]}
+        out["samples"].append({"case": fc, "obs": obs, "fresh": observe_si(fc), "coords": None})
+    return out
+
+
+def flat(x):
+    if isinstance(x, list):
+        for y in x:
+            yield from flat(y)
+    else:
+        yield x
+
+
+def oracle_stateful(case, so):
+    """[(final si case of the sample, failure item)]: the assigned state is what the object holds; every definition / round trip of
+    oracle_si for the FINAL values; the object with a history agrees with a freshly built beam to a few units of round-off"""
+    bad = []
+    fin = so["final"]
+    want = "torch." + fin["dtype"]
+    if not so["state_matches"]:
+        bad.append((None, {"what": "after the assignments the beam does not hold the assigned values / dtype (energy, particles)",
+                           "observed": {"dtype": so["beam_dtype"], **so["state"]}, "expected": fin}))
+        return bad
+    eps = 2.0 ** -52 if fin["dtype"] == "float64" else 2.0 ** -23
+    meV = consts()[0]
+    for smp in so["samples"]:
+        fc, obs, fresh = smp["case"], smp["obs"], smp["fresh"]
+        if any(d != want for d in obs["dtypes"]):
+            bad.append((fc, {"what": "dtype of a conversion result differs from the beam's current dtype", "observed": obs["dtypes"], "expected": want}))
+        for b in oracle_si(fc, obs):
+            bad.append((fc, dict(b, after_history=True)))
+        cm = cond_of(fc["E0"], meV)
+        p0 = math.sqrt(fc["E0"] ** 2 - meV ** 2)
+        cnd = max([cm] + [cond_of(fc["E0"] + q[5] * p0, meV) for q in fc["particles"]])
+        for key in ("xyz", "back", "energies", "momenta", "p0c", "gamma0", "beta0", "back_energy"):
+            # columnwise scale: a coordinate that is 0 on the fresh beam must be 0 after the history too (delta: scale 1)
+            for j, (u, v) in enumerate(zip(flat(obs[key]), flat(fresh[key]))):
+                scale = abs(v) + (1.0 if key == "back" and j % 7 == 5 else 0.0)
+                tol = 64 * eps * cnd * scale
+                if key in ("xyz", "back") and fc["dtype"] == "float32":
+                    tol = None            # float32 SI momenta squared are subnormal (F22): judged by oracle_si / classify_si only
+                if tol is not None and not (math.isfinite(u) and abs(u - v) <= tol):
+                    bad.append((fc, {"what": f"{key}[{j}] on a beam object with a history of uses and assignments differs from the same "
+                                             f"quantity on a freshly built beam holding the same values", "observed": u, "expected": v,
+                                     "tol": tol, "dev": abs(u - v), "fresh_differs": True}))
+                    break
+        if smp["coords"] is not None:
+            for b in oracle_coords(dict(fc, kind="coords"), smp["coords"]):
+                bad.append((fc, dict(b, after_history=True)))
+    return bad
 
 
 # ------------------------------------------------------------------------------------------------ Coq goals
@@ -467,7 +692,9 @@ def main(tier, replay=None):
     thorough = tier == "thorough"
     run.cov["rule"] = ("reference energies log-uniform in [0.6 MeV, 20 GeV] (15% just above the rest energy), delta in +-0.05 (60%), +-0.3, 0 and "
                        "+-1e-9/1e-6, tau in {0, +-1e-5, +-1e-2, +-1}, transverse momenta +-2e-3, float64 and float32; every case calls the real "
-                       "conversion functions (kinds: bmad = *_z_pz helpers, coords = full-coordinate wrappers *_coords, si = ParticleBeam SI conversions); non-trivial = at least one particle with delta != 0 and tau != 0; distinct by full input")
+                       "conversion functions (kinds: bmad = *_z_pz helpers, coords = full-coordinate wrappers *_coords, si = ParticleBeam SI conversions); non-trivial = at least one particle with delta != 0 and tau != 0; distinct by full input; "
+                       "stateful = one ParticleBeam object (scalar or vectorised, float32/float64) taken through 2-7 steps (use, set energy / "
+                       "particles / a coordinate / charges, energy *= f, .to(dtype), clone, index), all values physical at every use")
     if replay:
         return do_replay(run, replay)
     proof_ok = run.proof_stage()
@@ -525,12 +752,52 @@ def main(tier, replay=None):
         for g in gs:
             goals.append((g[0], g[1]))
             owner.append((len(cases) - 1, g[2]))
+    # ---- stateful sequences on one beam object (uses, assignments, .to, clone, indexing; then every conversion again)
+    n_h = 400 if thorough else 36
+    n_h_goals = 60 if thorough else 10
+    for k in range(n_h):
+        dtype = "float64" if k % 3 != 2 else "float32"
+        case = gen_stateful_case(run.rng, dtype)
+        run.add_case(case, True)
+        run.count(f"stateful_{dtype}")
+        for st in case["steps"]:
+            run.count("stateful_step_" + st["op"])
+        run.count("stateful_vectorised_start" if isinstance(case["E0"], list) else "stateful_scalar_start")
+        try:
+            so = observe_stateful(case)
+            sbad = oracle_stateful(case, so)
+        except Exception as ex:  # noqa -- an exception of the implementation on a valid sequence is an observation
+            run.count("implementation_raises")
+            bad_new.append({"case": case, "failure": {"what": "a step of the sequence / a conversion after it raises", "observed": repr(ex)[:300]}})
+            continue
+        run.count("stateful_final_" + so["final"]["dtype"] + ("_vectorised" if isinstance(so["final"]["E0"], list) else ""))
+        for fc, b in sbad:
+            tag = classify_si(fc, b) if fc is not None else None
+            if tag:
+                known_hits.setdefault(tag, []).append({"case": fc, "item": b})
+            else:
+                bad_new.append({"case": case, "failure": b, "final_values": fc, "observed": so["state"]})
+        if k < n_h_goals:
+            smp = so["samples"][0]
+            try:
+                gs = si_goals(smp["case"], smp["obs"])
+            except Exception:  # noqa -- malformed observation: reported by the oracle above
+                gs = []
+            cases.append((dict(case, final_values=smp["case"]), smp["obs"]))
+            for g in gs:
+                goals.append((g[0], g[1]))
+                owner.append((len(cases) - 1, "after a history: " + g[2]))
     failing, errs = common.run_real_goals(PID, "conv", PRE, goals)
     run.cov["traces_validated_against_impl"] += len(cases)
     run.cov["interval_goals"] = len(goals)
     vect = oracle_vectorised(run)
     run.cov["tested_only"] = ["float32 SI conversions (only the oracle; the model is a real-number formula and float32 squares of SI momenta underflow)",
                               "dtype preservation of conversion results",
+                              "stateful sequences on one beam object (read derived properties / convert, assign energy, particles, charges, "
+                              "coordinate setters, energy *= f, .to(dtype), clone, index a vectorised beam, then convert again): the object "
+                              "holds the assigned values; every SI definition / round trip holds for the FINAL values (60-digit oracle); the "
+                              "object agrees with a freshly built beam of the final values to 64 ulp x conditioning; the first sequences also "
+                              "go through the Coq model by interval goals",
                               "full-coordinate wrappers cheetah_to_bmad_coords / bmad_to_cheetah_coords: transverse columns copied bit for bit, "
                               "shapes, vectorised == per setting, inputs not modified (their longitudinal outputs are also checked against the Coq model)", "vectorised ParticleBeam.energies (F17)"]
 
@@ -597,6 +864,8 @@ def do_replay(run, path):
         bad = guarded(lambda: oracle_coords(case, observe_coords(case)))
     elif case.get("kind") == "si":
         bad = guarded(lambda: [b for b in oracle_si(case, observe_si(case)) if not classify_si(case, b)])
+    elif case.get("kind") == "stateful":
+        bad = guarded(lambda: [b for fc, b in oracle_stateful(case, observe_stateful(case)) if fc is None or not classify_si(fc, b)])
     else:
         bad = [v for v in oracle_vectorised(run) if v["result"] != "ok"]
     print("replay:", "property holds on this input" if not bad else f"property FAILS on this input: {json.dumps(bad[:3])}")
